@@ -741,5 +741,211 @@ theorem posted_names (s : List Name × List Note) (ops : List Op) {nt : Note}
         obtain ⟨o2, ho2, hx2⟩ := h1 x hx
         exact ⟨o2, List.mem_cons_of_mem _ ho2, hx2⟩)
 
+/-! ## Operations on a disabled layer -/
+
+theorem newGlyph_disabled {f : Font} {L : String} {l : Layer} (hget : AL.get? f.layers L = some l)
+    (hd : l.disabled ≠ 0) (g : Name) :
+    newGlyph f L g = (setLayer f L { l with glyphs := addName l.glyphs g }, .ok) := by
+  unfold newGlyph
+  rw [hget]
+  simp only
+  rw [post_disabled (l := { l with glyphs := addName l.glyphs g }) (by rw [get?_setLayer, if_pos rfl]) hd]
+
+theorem delGlyph_disabled {f : Font} {L : String} {l : Layer} (hget : AL.get? f.layers L = some l)
+    (hd : l.disabled ≠ 0) {g : Name} (hm : g ∈ l.glyphs) :
+    delGlyph f L g = (setLayer f L { l with glyphs := removeName l.glyphs g }, .ok) := by
+  unfold delGlyph
+  rw [hget]
+  simp only [hm, if_true]
+  rw [post_disabled (l := { l with glyphs := removeName l.glyphs g }) (by rw [get?_setLayer, if_pos rfl]) hd]
+
+theorem rename_disabled {f : Font} {L : String} {l : Layer} (hget : AL.get? f.layers L = some l)
+    (hd : l.disabled ≠ 0) {old new : Name} (hm : old ∈ l.glyphs) (hne : old ≠ new) :
+    rename f L old new = (setLayer f L { l with glyphs := addName (removeName l.glyphs old) new }, .ok) := by
+  unfold rename
+  rw [hget]
+  simp only [hm, hne, if_true, if_false]
+  rw [post_disabled (l := { l with glyphs := addName (removeName l.glyphs old) new })
+    (by rw [get?_setLayer, if_pos rfl]) hd]
+
+/-- on a disabled layer on which nothing is held or queued, `insertGlyph`'s bracket opens and closes
+around a dropped notification -/
+theorem insertGlyph_disabled {f : Font} {L : String} {l : Layer} (hget : AL.get? f.layers L = some l)
+    (hd : l.disabled ≠ 0) (hh : l.held = 0) (hq : l.queue = []) (g : Name) :
+    insertGlyph f L g = (setLayer f L { l with glyphs := addName l.glyphs g }, .ok) := by
+  obtain ⟨gl, ob, he, qu, di⟩ := l
+  simp only at hd hh hq
+  subst hh; subst hq
+  have e1 : (holdLayer f L).1 =
+      setLayer f L { glyphs := gl, observed := ob, held := 1, queue := [], disabled := di } := by
+    unfold holdLayer; rw [hget]
+  have e2 : (newGlyph (setLayer f L { glyphs := gl, observed := ob, held := 1, queue := [], disabled := di }) L g).1 =
+      setLayer f L { glyphs := addName gl g, observed := ob, held := 1, queue := [], disabled := di } := by
+    rw [newGlyph_disabled (l := { glyphs := gl, observed := ob, held := 1, queue := [], disabled := di })
+      (by rw [get?_setLayer, if_pos rfl]) hd, setLayer_setLayer]
+  have e3 : (releaseLayer (setLayer f L
+      { glyphs := addName gl g, observed := ob, held := 1, queue := [], disabled := di }) L).1 =
+      setLayer f L { glyphs := addName gl g, observed := ob, held := 0, queue := [], disabled := di } := by
+    unfold releaseLayer
+    rw [get?_setLayer, if_pos rfl]
+    simp only [Nat.one_ne_zero, if_false, if_true, flush]
+    rw [setLayer_setLayer]
+  unfold insertGlyph
+  rw [hget]
+  simp only
+  rw [e1, e2, e3]
+
+/-- a block of glyph operations on a disabled layer (nothing held): the names follow the operations,
+nothing else changes — the font is told nothing -/
+theorem run_disabledBlock {f : Font} {L : String} {l : Layer} (hget : AL.get? f.layers L = some l)
+    (hd : l.disabled ≠ 0) (hh : l.held = 0) (hq : l.queue = []) (block : List Op)
+    (hb : ∀ op ∈ block, op.onLayer L = true) (gl0 : List Name) :
+    run (setLayer f L { l with glyphs := gl0 }) block =
+      setLayer f L { l with glyphs := (blockRun (gl0, []) block).1 } := by
+  suffices h : ∀ (s0 : List Name × List Note),
+      run (setLayer f L { l with glyphs := s0.1 }) block =
+        setLayer f L { l with glyphs := (blockRun s0 block).1 } from h (gl0, [])
+  induction block with
+  | nil => intro s0; rfl
+  | cons op ops ih =>
+    intro s0
+    have hop := hb op (List.mem_cons_self ..)
+    have hrest := fun o ho => hb o (List.mem_cons_of_mem _ ho)
+    have hget' : AL.get? (setLayer f L { l with glyphs := s0.1 }).layers L = some { l with glyphs := s0.1 } := by
+      rw [get?_setLayer, if_pos rfl]
+    simp only [run]
+    rw [blockRun_cons]
+    suffices hstep : (step (setLayer f L { l with glyphs := s0.1 }) op).1 =
+        setLayer f L { l with glyphs := (blockStep s0 op).1 } by
+      rw [hstep]; exact ih hrest _
+    cases op with
+    | newGlyph L' g =>
+      simp only [Op.onLayer, decide_eq_true_eq] at hop; subst hop
+      simp only [step, blockStep]
+      rw [newGlyph_disabled hget' hd, setLayer_setLayer]
+    | insertGlyph L' g =>
+      simp only [Op.onLayer, decide_eq_true_eq] at hop; subst hop
+      simp only [step, blockStep]
+      rw [insertGlyph_disabled hget' hd hh hq, setLayer_setLayer]
+    | delGlyph L' g =>
+      simp only [Op.onLayer, decide_eq_true_eq] at hop; subst hop
+      simp only [step, blockStep]
+      by_cases hm : g ∈ s0.1
+      · rw [delGlyph_disabled hget' hd (by exact hm), setLayer_setLayer]
+        simp only [hm, if_true]
+      · simp only [hm, if_false]
+        unfold delGlyph
+        rw [hget']
+        simp only [hm, if_false]
+    | rename L' o n =>
+      simp only [Op.onLayer, decide_eq_true_eq] at hop; subst hop
+      simp only [step, blockStep]
+      by_cases hm : o ∈ s0.1
+      · by_cases hne : o = n
+        · subst hne
+          simp only [hm, if_true]
+          unfold rename
+          rw [hget']
+          simp only [hm, if_true]
+        · rw [rename_disabled hget' hd (by exact hm) hne, setLayer_setLayer]
+          simp only [hm, hne, if_true, if_false]
+      · simp only [hm, if_false]
+        unfold rename
+        rw [hget']
+        simp only [hm, if_false]
+    | _ => simp [Op.onLayer] at hop
+
+/-! ## Two renamings in a row -/
+
+theorem replaceFirst_replaceFirst {o : List Name} {a b c : Name} (hb : b ∉ o) :
+    replaceFirst (replaceFirst o a b) b c = replaceFirst o a c := by
+  induction o with
+  | nil => rfl
+  | cons x r ih =>
+    simp only [List.mem_cons, not_or] at hb
+    by_cases hx : x = a
+    · simp [replaceFirst, hx]
+    · have hxb : ¬ x = b := fun e => hb.1 e.symm
+      simp [replaceFirst, hx, hxb, ih hb.2]
+
+theorem mem_replaceFirst {o : List Name} {a b x : Name} (h : x ∈ replaceFirst o a b) : x ∈ o ∨ x = b := by
+  induction o with
+  | nil => simp [replaceFirst] at h
+  | cons y r ih =>
+    by_cases hy : y = a
+    · simp only [replaceFirst, hy, if_true, List.mem_cons] at h
+      rcases h with h | h
+      · exact Or.inr h
+      · exact Or.inl (List.mem_cons_of_mem _ h)
+    · simp only [replaceFirst, hy, if_false, List.mem_cons] at h
+      rcases h with h | h
+      · exact Or.inl (by simp [h])
+      · rcases ih h with h | h
+        · exact Or.inl (List.mem_cons_of_mem _ h)
+        · exact Or.inr h
+
+/-! ## D: hold, block, release -/
+
+theorem coalesce_nil_right (q : List Note) : coalesce q [] = q := rfl
+
+/-- The state just before the release, the layers after it, and the order after it: the queue the
+block left (what it posted, coalesced) is delivered against the layers as they are at the release. -/
+theorem heldRun_spec {f : Font} (hw : WF f) {L : String} {l : Layer}
+    (hget : AL.get? f.layers L = some l) (hc : l.calm) (block : List Op)
+    (hb : ∀ op ∈ block, op.onLayer L = true) :
+    run f (.holdLayer L :: block) =
+      setLayer f L { l with glyphs := (blockRun (l.glyphs, []) block).1, held := 1,
+                            queue := coalesce [] (blockRun (l.glyphs, []) block).2 } ∧
+    (heldRun f L block).layers =
+      (setLayer f L { l with glyphs := (blockRun (l.glyphs, []) block).1 }).layers ∧
+    glyphOrder (heldRun f L block) =
+      specDeliverAll (anyLayerHas (heldRun f L block)) (glyphOrder f)
+        (coalesce [] (blockRun (l.glyphs, []) block).2) := by
+  obtain ⟨hh, hd, hq⟩ := hc
+  obtain ⟨gl, ob, he, qu, di⟩ := l
+  simp only at hh hd hq
+  subst hh; subst hd; subst hq
+  have ho : ob = true := observed_of_get? hw hget
+  -- the hold
+  have e1 : (step f (.holdLayer L)).1 =
+      setLayer f L { glyphs := gl, observed := ob, held := 1, queue := [], disabled := 0 } := by
+    simp only [step, holdLayer, hget]
+  have hget1 : AL.get? (setLayer f L { glyphs := gl, observed := ob, held := 1, queue := [], disabled := 0 }).layers L =
+      some { glyphs := gl, observed := ob, held := 1, queue := [], disabled := 0 } := by
+    rw [get?_setLayer, if_pos rfl]
+  -- the block
+  have hrun := run_heldBlock hget1 (by simp) rfl block hb (gl, [])
+  simp only [coalesce_nil_right, setLayer_setLayer] at hrun
+  have eB : run f (.holdLayer L :: block) =
+      setLayer f L { glyphs := (blockRun (gl, []) block).1, observed := ob, held := 1,
+                     queue := coalesce [] (blockRun (gl, []) block).2, disabled := 0 } := by
+    simp only [run]; rw [e1]; exact hrun
+  refine ⟨eB, ?_⟩
+  -- the release
+  have hwB : WF (run f (.holdLayer L :: block)) := wf_run hw _
+  have hgetB : AL.get? (run f (.holdLayer L :: block)).layers L =
+      some { glyphs := (blockRun (gl, []) block).1, observed := ob, held := 1,
+             queue := coalesce [] (blockRun (gl, []) block).2, disabled := 0 } := by
+    rw [eB, get?_setLayer, if_pos rfl]
+  obtain ⟨_, r2, r3⟩ := releaseLayer_last hwB hgetB rfl rfl
+  have eH : heldRun f L block = (releaseLayer (run f (.holdLayer L :: block)) L).1 := by
+    unfold heldRun
+    rw [show [Op.holdLayer L] ++ block ++ [Op.releaseLayer L] = (Op.holdLayer L :: block) ++ [Op.releaseLayer L] by simp,
+      run_append]
+    rfl
+  have hlay : (heldRun f L block).layers =
+      (setLayer f L { glyphs := (blockRun (gl, []) block).1, observed := ob, held := 0, queue := [],
+                      disabled := 0 }).layers := by
+    rw [eH, r2, eB, setLayer_setLayer]
+  refine ⟨hlay, ?_⟩
+  rw [eH, r3]
+  have hany : anyLayerHas (releaseLayer (run f (.holdLayer L :: block)) L).1 =
+      anyLayerHas (run f (.holdLayer L :: block)) := by
+    rw [anyLayerHas_congr r2]
+    exact anyLayerHas_setLayer_same hwB hgetB rfl rfl
+  rw [hany]
+  have : glyphOrder (run f (.holdLayer L :: block)) = glyphOrder f := by rw [eB]; rfl
+  rw [this]
+
 end GlyphOrder
 end DefconModel
